@@ -556,6 +556,12 @@ class Gen(object):
         pos = self.i(0, len(nodes))
         return nodes[:pos] + extra + nodes[pos:]
 
+    def cond_with(self, depth, ctx, test):
+        """A two-way conditional with the given test (both branches present)."""
+        self.nifs += 1
+        return {"k": "if", "id": self.nifs, "test": test, "arms": [self.branch(depth + 1, ctx)],
+                "else": self.branch(depth + 1, ctx)}
+
     def cond(self, depth, ctx):
         self.nifs += 1
         node = {"k": "if", "id": self.nifs}
@@ -609,6 +615,21 @@ class Gen(object):
                     args = [self.nodes(depth + 1, actx, self.i(0, 2)) for _ in range(m["np"])]
                     out.append({"k": "call", "n": m["n"], "args": args})
                     self.features.add("macro-call")
+            elif r == 18 and self.p(2) and depth < 3 and ctx["groups"] < 3 and self.nifs < 7 \
+                    and K_IFDEFINED not in KNOWN and not ctx["in_macro"] and not ctx.get("in_arg"):
+                # directed sequence: a name is tested while undefined (which makes plasTeX register a
+                # placeholder for it), then defined locally inside a group and tested there, then tested
+                # again after the group
+                undefd = [x for x in self.xnames if x not in self.xmacs] or ["xd"]
+                n = self.pick(undefd)
+                first = {"k": "ifdefined", "n": n} if self.p(5) else {"k": "ifxm", "m1": n, "m2": "undefined"}
+                sub = dict(ctx, groups=ctx["groups"] + 1)
+                out.append(self.cond_with(depth, ctx, first))
+                out.append({"k": "grp", "kind": "brace" if self.p(6) else "semi",
+                            "body": [{"k": "defx", "n": n, "b": self.pick(XBODIES)},
+                                     self.cond_with(depth, sub, {"k": "ifdefined", "n": n})]})
+                out.append(self.cond_with(depth, ctx, {"k": "ifdefined", "n": n}))
+                self.features.add("ifdefined-after-lookup-then-local-definition")
             elif r == 18:
                 out.append({"k": "relax"})
             else:
